@@ -25,36 +25,52 @@ theorem Safe.ite' {α : Type} {c : Prop} [Decidable c] {x y : Except Exc α} (hx
   · exact hx ‹_›
   · exact hy ‹_›
 
-theorem safe_valueError {α : Type} : Safe (.error .valueError : Except Exc α) := by
-  intro e h; cases h; decide
-theorem safe_overflowError {α : Type} : Safe (.error .overflowError : Except Exc α) := by
-  intro e h; cases h; decide
-theorem safe_osError {α : Type} : Safe (.error .osError : Except Exc α) := by
-  intro e h; cases h; decide
-theorem safe_unicodeDecodeError {α : Type} : Safe (.error .unicodeDecodeError : Except Exc α) := by
-  intro e h; cases h; decide
+/-- **What totality needs from the extracted `except` tuple and the generated guards**: the four
+classes the primitives raise are caught, and every subscript is covered by the guard it is read
+under.  Proved in `Props/C08.lean` (`guards_cover_subscripts_and_exceptions`) against the source
+as extracted on this run. -/
+structure Covers : Prop where
+  catches : caughtBy Gen.Iso.caught .valueError = true ∧ caughtBy Gen.Iso.caught .unicodeDecodeError = true ∧
+    caughtBy Gen.Iso.caught .overflowError = true ∧ caughtBy Gen.Iso.caught .osError = true
+  window : ∀ n : Int, Gen.Iso.lenWindow n → 10 ≤ n
+  plus : ∀ n : Int, ¬ Gen.Iso.plusReject n → 9 ≤ n
+  dashIdx : Gen.Iso.dashA < 9 ∧ Gen.Iso.dashB < 9
+  time : ∀ n : Int, Gen.Iso.timeLenTest n → (Gen.Iso.sepIdx : Int) < n ∧ (Gen.Iso.colonA : Int) < n
+  sec : ∀ n : Int, Gen.Iso.secLenTest n → (Gen.Iso.colonB : Int) < n
+  arity : (Gen.Iso.slicesDate.length = 3 ∨ Gen.Iso.slicesDate.length = 5 ∨ Gen.Iso.slicesDate.length = 6) ∧
+    (Gen.Iso.slicesSec.length = 3 ∨ Gen.Iso.slicesSec.length = 5 ∨ Gen.Iso.slicesSec.length = 6) ∧
+    (Gen.Iso.slicesMin.length = 3 ∨ Gen.Iso.slicesMin.length = 5 ∨ Gen.Iso.slicesMin.length = 6)
 
-theorem pyNat_safe (s : List Char) : Safe (pyNat s) := by
+theorem safe_valueError (C : Covers) {α : Type} : Safe (.error .valueError : Except Exc α) := by
+  intro e h; cases h; exact C.catches.1
+theorem safe_unicodeDecodeError (C : Covers) {α : Type} : Safe (.error .unicodeDecodeError : Except Exc α) := by
+  intro e h; cases h; exact C.catches.2.1
+theorem safe_overflowError (C : Covers) {α : Type} : Safe (.error .overflowError : Except Exc α) := by
+  intro e h; cases h; exact C.catches.2.2.1
+theorem safe_osError (C : Covers) {α : Type} : Safe (.error .osError : Except Exc α) := by
+  intro e h; cases h; exact C.catches.2.2.2
+
+theorem pyNat_safe (C : Covers) (s : List Char) : Safe (pyNat s) := by
   unfold pyNat
   split
-  · exact safe_valueError
+  · exact (safe_valueError C)
   · split
     · exact Safe.ok _
-    · exact safe_valueError
+    · exact (safe_valueError C)
 
-theorem pyInt_safe (s : List Char) : Safe (pyInt s) := by
+theorem pyInt_safe (C : Covers) (s : List Char) : Safe (pyInt s) := by
   unfold pyInt
   split
-  · exact safe_valueError
+  · exact (safe_valueError C)
   · split
-    · exact Safe.bind (pyNat_safe _) (fun _ => Safe.ok _)
+    · exact Safe.bind (pyNat_safe C _) (fun _ => Safe.ok _)
     · split
-      · exact Safe.bind (pyNat_safe _) (fun _ => Safe.ok _)
-      · exact Safe.bind (pyNat_safe _) (fun _ => Safe.ok _)
+      · exact Safe.bind (pyNat_safe C _) (fun _ => Safe.ok _)
+      · exact Safe.bind (pyNat_safe C _) (fun _ => Safe.ok _)
 
-theorem buildDatetime_safe (y m d H M S : Int) : Safe (buildDatetime y m d H M S) := by
+theorem buildDatetime_safe (C : Covers) (y m d H M S : Int) : Safe (buildDatetime y m d H M S) := by
   unfold buildDatetime
-  repeat (first | exact safe_overflowError | exact safe_valueError | exact Safe.ok _ | split)
+  repeat (first | exact (safe_overflowError C) | exact (safe_valueError C) | exact Safe.ok _ | split)
 
 theorem ints_length (v : List Char) : ∀ (sl : List (Nat × Nat)) (xs : List Int),
     ints v sl = .ok xs → xs.length = sl.length
@@ -72,31 +88,31 @@ theorem ints_length (v : List Char) : ∀ (sl : List (Nat × Nat)) (xs : List In
         cases h
         simp [ints_length v r ys h2]
 
-theorem ints_safe (v : List Char) : ∀ (sl : List (Nat × Nat)), Safe (ints v sl)
+theorem ints_safe (C : Covers) (v : List Char) : ∀ (sl : List (Nat × Nat)), Safe (ints v sl)
   | [] => Safe.ok _
   | ab :: r => by
     unfold ints
-    exact Safe.bind (pyInt_safe _) (fun x => Safe.bind (ints_safe v r) (fun xs => Safe.ok _))
+    exact Safe.bind (pyInt_safe C _) (fun x => Safe.bind (ints_safe C v r) (fun xs => Safe.ok _))
 
 /-- `datetime(*args)` with 3, 5 or 6 integers never raises `TypeError`. -/
-theorem mkDatetime_safe (xs : List Int) (h : xs.length = 3 ∨ xs.length = 5 ∨ xs.length = 6) :
+theorem mkDatetime_safe (C : Covers) (xs : List Int) (h : xs.length = 3 ∨ xs.length = 5 ∨ xs.length = 6) :
     Safe (mkDatetime xs) := by
   rcases xs with _ | ⟨a, _ | ⟨b, _ | ⟨c, _ | ⟨d, _ | ⟨e, _ | ⟨f, _ | ⟨g, t⟩⟩⟩⟩⟩⟩⟩ <;>
     first
-    | exact buildDatetime_safe _ _ _ _ _ _
+    | exact buildDatetime_safe C _ _ _ _ _ _
     | (exfalso; simp at h)
     | (exfalso; simp at h; omega)
 
-theorem fields_safe (v : List Char) (sl : List (Nat × Nat))
+theorem fields_safe (C : Covers) (v : List Char) (sl : List (Nat × Nat))
     (h : sl.length = 3 ∨ sl.length = 5 ∨ sl.length = 6) : Safe (fields v sl) := by
   unfold fields
   intro e he
   cases h1 : ints v sl with
-  | error e' => rw [h1] at he; simp only [bind_error] at he; cases he; exact ints_safe v sl _ h1
+  | error e' => rw [h1] at he; simp only [bind_error] at he; cases he; exact ints_safe C v sl _ h1
   | ok xs =>
     rw [h1] at he; simp only [bind_ok] at he
     have hl := ints_length v sl xs h1
-    exact Safe.bind (mkDatetime_safe xs (by omega)) (fun dt => Safe.ok _) e he
+    exact Safe.bind (mkDatetime_safe C xs (by omega)) (fun dt => Safe.ok _) e he
 
 theorem idx_ok (v : List Char) (i : Nat) (h : i < v.length) : ∃ c, idx v i = .ok c := by
   unfold idx
@@ -114,99 +130,100 @@ theorem shortCircuit_safe (j a : Bool) (b : Except Exc Bool) (hb : (if j then a 
     first | exact Safe.ok _ | exact hb (by simp)
 
 /-- The dash test reads `value[4]` and `value[7]`: nine characters are enough. -/
-theorem dashReject_safe (v : List Char) (h9 : 9 ≤ v.length) : Safe (dashReject v) := by
+theorem dashReject_safe (C : Covers) (v : List Char) (h9 : 9 ≤ v.length) : Safe (dashReject v) := by
   unfold dashReject
-  refine Safe.bind (idx_safe v _ (by simp only [Gen.Iso.dashA]; omega)) (fun c4 => ?_)
+  have := C.dashIdx
+  refine Safe.bind (idx_safe v _ (by omega)) (fun c4 => ?_)
   exact shortCircuit_safe _ _ _ (fun _ =>
-    Safe.bind (idx_safe v _ (by simp only [Gen.Iso.dashB]; omega)) (fun _ => Safe.ok _))
+    Safe.bind (idx_safe v _ (by omega)) (fun _ => Safe.ok _))
 
 /-- The separator test is only evaluated under the generated `timeLenTest`, which covers both indices. -/
-theorem sepReject_safe (v : List Char) (h : Gen.Iso.timeLenTest (v.length : Int)) : Safe (sepReject v) := by
-  have h16 : 16 ≤ v.length := by unfold Gen.Iso.timeLenTest at h; omega
+theorem sepReject_safe (C : Covers) (v : List Char) (h : Gen.Iso.timeLenTest (v.length : Int)) : Safe (sepReject v) := by
+  have := C.time _ h
   unfold sepReject
-  refine Safe.bind (idx_safe v _ (by simp only [Gen.Iso.sepIdx]; omega)) (fun c10 => ?_)
+  refine Safe.bind (idx_safe v _ (by omega)) (fun c10 => ?_)
   exact shortCircuit_safe _ _ _ (fun _ =>
-    Safe.bind (idx_safe v _ (by simp only [Gen.Iso.colonA]; omega)) (fun _ => Safe.ok _))
+    Safe.bind (idx_safe v _ (by omega)) (fun _ => Safe.ok _))
 
 /-- `value[16]` is only read under the generated `secLenTest`, which covers it. -/
-theorem hasSeconds_safe (v : List Char) : Safe (hasSeconds v) := by
+theorem hasSeconds_safe (C : Covers) (v : List Char) : Safe (hasSeconds v) := by
   unfold hasSeconds
   refine shortCircuit_safe _ _ _ (fun ha => ?_)
   have h : Gen.Iso.secLenTest (v.length : Int) := of_decide_eq_true ha
-  have h19 : 19 ≤ v.length := by unfold Gen.Iso.secLenTest at h; omega
-  exact Safe.bind (idx_safe v _ (by simp only [Gen.Iso.colonB]; omega)) (fun _ => Safe.ok _)
+  have := C.sec _ h
+  exact Safe.bind (idx_safe v _ (by omega)) (fun _ => Safe.ok _)
 
 /-- No `IndexError`: nine characters are enough for every index `shaped` reads unguarded. -/
-theorem shaped_safe (v : List Char) (h9 : 9 ≤ v.length) : Safe (shaped v) := by
+theorem shaped_safe (C : Covers) (v : List Char) (h9 : 9 ≤ v.length) : Safe (shaped v) := by
   unfold shaped
-  refine Safe.bind (dashReject_safe v h9) (fun rej => ?_)
+  refine Safe.bind (dashReject_safe C v h9) (fun rej => ?_)
   refine Safe.ite (Safe.ok _) ?_
-  refine Safe.ite (fields_safe v _ (by decide)) ?_
+  refine Safe.ite (fields_safe C v _ C.arity.1) ?_
   refine Safe.ite' (fun h16 => ?_) (fun _ => Safe.ok _)
-  refine Safe.bind (sepReject_safe v h16) (fun rej => ?_)
+  refine Safe.bind (sepReject_safe C v h16) (fun rej => ?_)
   refine Safe.ite (Safe.ok _) ?_
-  refine Safe.bind (hasSeconds_safe v) (fun secs => ?_)
-  refine Safe.ite (fields_safe v _ (by decide)) ?_
-  exact Safe.ite (fields_safe v _ (by decide)) (Safe.ok _)
+  refine Safe.bind (hasSeconds_safe C v) (fun secs => ?_)
+  refine Safe.ite (fields_safe C v _ C.arity.2.1) ?_
+  exact Safe.ite (fields_safe C v _ C.arity.2.2) (Safe.ok _)
 
-theorem textPath_safe (v : List Char) : Safe (textPath v) := by
+theorem textPath_safe (C : Covers) (v : List Char) : Safe (textPath v) := by
   unfold textPath
   refine Safe.ite' (fun hw => ?_) (fun _ => Safe.ok _)
-  have h10 : 10 ≤ v.length := by unfold Gen.Iso.lenWindow at hw; omega
+  have h10 : 10 ≤ v.length := by have := C.window _ hw; omega
   have hv1 : 9 ≤ (if v.getLast? = some Gen.Iso.zChar then v.dropLast else v).length := by
     split
     · simp; omega
     · omega
   dsimp only
   generalize (if v.getLast? = some Gen.Iso.zChar then v.dropLast else v) = v1 at hv1 ⊢
-  refine Safe.ite' (fun _ => ?_) (fun _ => shaped_safe _ hv1)
+  refine Safe.ite' (fun _ => ?_) (fun _ => shaped_safe C _ hv1)
   refine Safe.ite' (fun _ => Safe.ok _) (fun hw2 => ?_)
   have : 9 ≤ (List.takeWhile (fun x => x != Gen.Iso.plusChar) v1).length := by
-    unfold Gen.Iso.plusReject at hw2; omega
-  exact shaped_safe _ this
+    have := C.plus _ hw2; omega
+  exact shaped_safe C _ this
 
-theorem fromTimestamp_safe (n : Int) : Safe (fromTimestamp n) := by
+theorem fromTimestamp_safe (C : Covers) (n : Int) : Safe (fromTimestamp n) := by
   unfold fromTimestamp
   split
-  · exact safe_overflowError
+  · exact (safe_overflowError C)
   · dsimp only
     split
-    · exact safe_osError
+    · exact (safe_osError C)
     · split
-      · exact safe_valueError
+      · exact (safe_valueError C)
       · exact Safe.ok _
 
-theorem intOfFloat_safe (b : UInt64) : Safe (intOfFloat b) := by
+theorem intOfFloat_safe (C : Covers) (b : UInt64) : Safe (intOfFloat b) := by
   unfold intOfFloat
   split
-  · exact safe_valueError
-  · exact safe_overflowError
+  · exact (safe_valueError C)
+  · exact (safe_overflowError C)
   · exact Safe.ok _
 
-theorem epoch_safe (ty : String) (n : Except Exc Int) (hn : Safe n) : Safe (epoch ty n) := by
+theorem epoch_safe (C : Covers) (ty : String) (n : Except Exc Int) (hn : Safe n) : Safe (epoch ty n) := by
   unfold epoch
   split
-  · exact Safe.bind hn (fun k => Safe.bind (fromTimestamp_safe k) (fun dt => Safe.ok _))
+  · exact Safe.bind hn (fun k => Safe.bind (fromTimestamp_safe C k) (fun dt => Safe.ok _))
   · exact Safe.ok _
 
-theorem strBody_safe (s : List Char) : Safe (strBody s) := by
+theorem strBody_safe (C : Covers) (s : List Char) : Safe (strBody s) := by
   unfold strBody
   split
-  · exact epoch_safe _ _ (pyInt_safe s)
-  · exact textPath_safe s
+  · exact epoch_safe C _ _ (pyInt_safe C s)
+  · exact textPath_safe C s
 
-theorem body_safe (i : Input) : Safe (body i) := by
+theorem body_safe (C : Covers) (i : Input) : Safe (body i) := by
   cases i with
-  | int n => exact epoch_safe _ _ (Safe.ok _)
-  | npInt n => exact epoch_safe _ _ (Safe.ok _)
-  | float b => exact epoch_safe _ _ (intOfFloat_safe b)
-  | npFloat b => exact epoch_safe _ _ (intOfFloat_safe b)
-  | str s => exact strBody_safe s
+  | int n => exact epoch_safe C _ _ (Safe.ok _)
+  | npInt n => exact epoch_safe C _ _ (Safe.ok _)
+  | float b => exact epoch_safe C _ _ (intOfFloat_safe C b)
+  | npFloat b => exact epoch_safe C _ _ (intOfFloat_safe C b)
+  | str s => exact strBody_safe C s
   | bytes b =>
     simp only [body]
     split
-    · exact safe_unicodeDecodeError
-    · exact strBody_safe _
+    · exact (safe_unicodeDecodeError C)
+    · exact strBody_safe C _
   | date y m d => exact Safe.ok _
   | datetime dt => exact Safe.ok _
   | other => exact Safe.ok _
